@@ -150,6 +150,27 @@ fn check(input: &In, case: &mut Case) -> Result<(), Fail> {
             }
         }
     }
+    // a packet put together in two stages: header and first question only, serialised with compression, then the
+    // other questions and all records pushed into the same value (what a responder does with `into_reply`)
+    if p.id % 4 == 2 && c.len() < 16000 {
+        case.class("built-in-two-stages");
+        let mut first = p.clone();
+        first.questions.truncate(1);
+        first.answers.clear();
+        first.authorities.clear();
+        first.additionals.clear();
+        let mut staged = lib("build", || build(&first))?.map_err(|e| Fail::new("harness:build", e))?;
+        let _ = ser_compressed(&staged);
+        let rest = pk.clone();
+        staged.questions.extend(rest.questions.into_iter().skip(1));
+        staged.answers.extend(rest.answers);
+        staged.name_servers.extend(rest.name_servers);
+        staged.additional_records.extend(rest.additional_records);
+        let cs = ser_compressed(&staged).map_err(|f| Fail::new("c07:compressed-failed", format!("packet built in two stages: {}", f.msg)))?;
+        check_pointers(&cs, &mut Case::default()).map_err(|f| Fail::new(f.sig, format!("packet serialised once with its first question only and completed afterwards: {}", f.msg)))?;
+        let (backs, _) = decode_message(&cs).map_err(|e| Fail::new("c07:undecodable", format!("packet built in two stages: {:?}", e)))?;
+        ensure!(names_of(&backs) == names_of(&p), "c07:expands-wrong", "the compressed output of a packet built in two stages decodes to different names: {}", diff(&p, &backs));
+    }
     // a writer that takes only a few bytes per write call: pointer offsets must not depend on it
     {
         let chunk = 1 + (*origin as usize % 5);
